@@ -73,7 +73,9 @@ Record attrcase := { t_id : nat; t_kind : nat; t_a : attrs; t_b : attrs; t_res :
 Definition sum_ok (a b : attrs) (m r : option attrs) : bool :=
   match m, r with
   | None, None => true
-  | Some _, Some x =>
+  | Some mm, Some x =>
+      (* forceflat of the sum follows the merge rule exactly (it decides flat vs N-d outputs) *)
+      ob_eqb (a_ff x) (a_ff mm) &&
       (fst (a_shape x) =? fst (a_shape a)) && (snd (a_shape x) =? snd (a_shape a)) &&
       (leqb (a_dims x) (a_dims a) || leqb (a_dims x) (a_dims b)) &&
       (leqb (a_dimsd x) (a_dimsd a) || leqb (a_dimsd x) (a_dimsd b))
@@ -95,10 +97,13 @@ Definition check_attr (c : attrcase) : list nat :=
    cols = the k column results of matvec on the flattened columns *)
 Definition colmajor_to_flat (M : nat) (cols : list (list G)) : list G :=
   flat_map (fun i => map (fun c => nth i c g0) cols) (seq 0 M).
-Record valcase := { v_id : nat; v_M : nat; v_got : list G; v_cols : list (list G) }.
+(* v_kg / v_kc: dtype kind of the result / of the stacked column results
+   (0 float32, 1 float64, 2 complex64, 3 complex128, 9 other; both 0 when not compared) *)
+Record valcase := { v_id : nat; v_M : nat; v_got : list G; v_cols : list (list G); v_kg : nat; v_kc : nat }.
 Definition check_val (tol : Qc) (c : valcase) : list nat :=
   (if forallb (fun col => Nat.eqb (length col) (v_M c)) (v_cols c) then [] else [2%nat]) ++
-  (if gvclose tol (v_got c) (colmajor_to_flat (v_M c) (v_cols c)) then [] else [1%nat]).
+  (if gvclose tol (v_got c) (colmajor_to_flat (v_M c) (v_cols c)) then [] else [1%nat]) ++
+  (if v_kg c =? v_kc c then [] else [3%nat]).
 
 (* ---------------- setter sequences on a bare LinearOperator ---------------- *)
 (* observed: None = ValueError in a setter; Some None = getters raise AttributeError; Some (Some a) = attributes read back *)
